@@ -283,8 +283,21 @@ def build(job, cfg, seed, plan_len, want_corr):
         out["failing"].append({"kind": "duplicate-names", "job": job, "config": cfg, "names": dup})
     profile = get_skill_profile(JobType(job))
     out["replacement_cases"] = 0
+    # the level each skill is CONFIGURED at, from the configuration itself and the profile's raw name lists (never read
+    # back from the environment under test): v cores, then origin (hexa) skills, then mastery cores, then the two
+    # explicit per-skill tables
+    configured = {}
+    configured.update({k: cfg["v_skill_level"] for k in profile.v_skill_names})
+    configured.update({k: cfg["hexa_skill_level"] for k in profile.hexa_skill_names})
+    configured.update({k: cfg["hexa_mastery_level"] for k in profile.hexa_mastery.values()})
+    configured.update(cfg.get("hexa_mastery_skill_levels") or {})
+    configured.update(cfg.get("hexa_skill_levels") or {})
+    wrong = {k: [configured[k], env.skill_levels.get(k)] for k in configured if env.skill_levels.get(k) != configured[k]}
+    if wrong:
+        out["failing"].append({"kind": "configured-level-not-used", "job": job, "config": cfg,
+                               "skill: [configured, level in the built environment]": wrong})
     for low, high in profile.get_skill_replacements().items():
-        lvl = env.skill_levels.get(high, 0)
+        lvl = configured.get(high, 0)
         out["replacement_cases"] += 1
         if (low in names) != (lvl == 0) or high not in names:
             out["failing"].append({"kind": "exclusion-rule", "job": job, "config": cfg, "lower_tier": low,
